@@ -6,7 +6,7 @@
    oracle are NOT theorems here: they are measured by checks/c19.py and labelled as tests. *)
 Require Import List Arith Lia Bool ZArith QArith Qround Qcanon Permutation.
 From TK Require Import Mat_Sums Mat_Core Mat_Qc Spe_Model Spe_Spec Spe_Proof_Lists Spe_Proof_Index
-     Spe_Proof_Coord Spe_Proof_Closed.
+     Spe_Proof_Coord Spe_Proof_Closed Spe_Run_Model Spe_Proof_Run.
 Import ListNotations.
 Local Open Scope nat_scope.
 
@@ -190,6 +190,41 @@ Theorem lambda_schedule : forall (T : positive) (lam : Q),
   (0 <= lam - lam / inject_Z (Z.pos T))%Q /\ (lam - lam / inject_Z (Z.pos T) <= lam)%Q.
 Proof. exact lambda_schedule_proof. Qed.
 Print Assumptions lambda_schedule.
+
+(* ---- the complete main loop: index bookkeeping + coordinate updates, every random stream ------ *)
+Theorem spe_run_centroid_global : forall (F : Type) (Fo : FieldOps F) (Ff : IsField F)
+    (old : bool) nbrs nupd N its (norms : list (list F)) (tol alpha : F) (R : nat -> nat -> F) (Y0 : pts) t,
+  Forall (fun i => is_perm N (it_from i)) its ->
+  exists Y, spe_embedding_run old true nbrs nupd N its norms tol alpha R Y0 = Ok Y /\
+            sumn N (fun i => Y i t) = sumn N (fun i => Y0 i t).
+Proof. exact (@spe_run_centroid_global_proof). Qed.
+Print Assumptions spe_run_centroid_global.
+
+Theorem spe_run_centroid_local : forall (F : Type) (Fo : FieldOps F) (Ff : IsField F)
+    nbrs nupd N its (norms : list (list F)) (tol alpha : F) (R : nat -> nat -> F) (Y0 : pts) t,
+  let k := length (nth 0 nbrs []) in
+  let nu := Nat.min nupd (N / 2) in
+  0 < N -> 0 < k -> nbrs_ok N k nbrs -> nbrs_below N nbrs ->
+  Forall (fun i => is_perm N (it_from i) /\ us_ok nu (it_us i)) its ->
+  exists Y, spe_embedding_run false false nbrs nupd N its norms tol alpha R Y0 = Ok Y /\
+            sumn N (fun i => Y i t) = sumn N (fun i => Y0 i t).
+Proof. exact (@spe_run_centroid_local_proof). Qed.
+Print Assumptions spe_run_centroid_local.
+
+Example spe_run_centroid_local_nonvacuous :
+  nbrs_below 6 w_nbrs /\
+  exists Y, spe_embedding_run false false w_nbrs 3 6 w_its [[qz 1; qz 2; qz 1]; [qz 3; qz 1; qz 1]; [qz 2; qz 2; qz 5]]
+                              (qfrac 1 8) (qz 1) (fun a b => qz (Z.of_nat (a + b))) ex_Y = Ok Y.
+Proof.
+  split.
+  - unfold nbrs_below, w_nbrs. repeat (constructor; [repeat (constructor; [lia|]); constructor|]). constructor.
+  - destruct (spe_run_centroid_local_proof w_nbrs 3 6 w_its
+                [[qz 1; qz 2; qz 1]; [qz 3; qz 1; qz 1]; [qz 2; qz 2; qz 5]] (qfrac 1 8) (qz 1)
+                (fun a b => qz (Z.of_nat (a + b))) ex_Y 0) as [Y [E _]];
+      try (cbn; lia); try exact w_nbrs_ok; try exact w_its_ok.
+    + unfold nbrs_below, w_nbrs. repeat (constructor; [repeat (constructor; [lia|]); constructor|]). constructor.
+    + exists Y. exact E.
+Qed.
 
 (* ---- random projection -------------------------------------------------------------------------- *)
 Theorem rp_entries_one_draw : forall (F : Type) (Fo : FieldOps F) (s : F) cols rows g,
